@@ -7,7 +7,7 @@ open Htp.Gen Htp.Parse
 section
 variable (cfg : Cfg)
 
-def REQUEST_URI_NOT_SEEN : Bytes := strBytes "/libhtp::request_uri_not_seen"
+def REQUEST_URI_NOT_SEEN : Bytes := (b!"/libhtp::request_uri_not_seen")
 
 /-- htp_connp_RES_IDLE -/
 def resIdle (c : Conn) : R :=
@@ -227,7 +227,7 @@ def resHeadersLoop : Nat → Bool → Conn → R
 def resHeaders (c : Conn) : R := resHeadersLoop cfg ((c.out.len - c.out.read).toNat + 3) false c
 
 /-- bstr_index_of_c_nocasenorzero(te->value, "chunked") != -1 -/
-def teHasChunked (v : Bytes) : Bool := (Bstr.indexOfMemNocaseNorzero v (strBytes "chunked")).isSome
+def teHasChunked (v : Bytes) : Bool := (Bstr.indexOfMemNocaseNorzero v (b!"chunked")).isSome
 
 /-- htp_connp_RES_BODY_DETERMINE -/
 def resBodyDetermine (c : Conn) : R :=
@@ -250,8 +250,8 @@ def resBodyDetermine (c : Conn) : R :=
       let c := if c.inn.status != STREAM_ERROR then { c with inn := { c.inn with status := STREAM_DATA } } else c
       if t.resStatusNumber == 407 then c else { c with outDataOtherAtTxEnd := true }
     else c
-  let cl := getHeaderC t.resHeaders "content-length"
-  let te := getHeaderC t.resHeaders "transfer-encoding"
+  let cl := getHeaderC t.resHeaders (b!"content-length")
+  let te := getHeaderC t.resHeaders (b!"transfer-encoding")
   -- 101 Switching Protocols without a body: both directions go into tunnel mode
   if t.resStatusNumber == 101 && te.isNone && cl.isNone then
     let c := { c with outState := .finalize }
@@ -270,8 +270,8 @@ def resBodyDetermine (c : Conn) : R :=
   let c :=
     if t.resStatusNumber ≥ 400 ∧ t.resStatusNumber ≤ 499 ∧ c.inn.contentLength > 0 ∧
        c.inn.bodyDataLeft == c.inn.contentLength then
-      match getHeaderC t.reqHeaders "expect" with
-      | some e => if Bstr.cmpMemNocase e.value (strBytes "100-continue") == 0 then { c with inState := .finalize } else c
+      match getHeaderC t.reqHeaders (b!"expect") with
+      | some e => if Bstr.cmpMemNocase e.value (b!"100-continue") == 0 then { c with inState := .finalize } else c
       | none => c
     else c
   -- no-body cases
@@ -285,7 +285,7 @@ def resBodyDetermine (c : Conn) : R :=
     else c
   let r : R :=
     if c.outState != .finalize then
-      let ct := getHeaderC t.resHeaders "content-type"
+      let ct := getHeaderC t.resHeaders (b!"content-type")
       let c := match ct with
         | some ct =>
           let low := Bstr.toLowercase ct.value
@@ -315,7 +315,7 @@ where
       else ({ c with outState := .finalize }, .ok)
     | none =>
       let bad := match ct with
-        | some ct => (Bstr.indexOfMemNocase ct.value (strBytes "multipart/byteranges")).isSome
+        | some ct => (Bstr.indexOfMemNocase ct.value (b!"multipart/byteranges")).isSome
         | none => false
       if bad then (c, .error) else
       let c := c.modTx uid (fun t => { t with resTransferCoding := CODING_IDENTITY, resProgress := 3 })
